@@ -339,11 +339,12 @@ Proof.
   match goal with |- context [parse_loop ctl ?ch ?b ?fu ?p ?c true None] =>
     pose proof (parse_loop_R ch b fu p c true None) as H; destruct (parse_loop ctl ch b fu p c true None) as [p' c' n|e c'|k c'|c'] end;
     cbn in H; unfold cR in H; cbn in H.
-  - destruct (c_end _ _) as [cc r] eqn:E. destruct r; cbn.
+  - destruct (c_end _ _) as [[cc pieces] r] eqn:E. destruct r; cbn.
+    + eapply R_trans; [apply R_ext|]. eapply R_trans; [exact H|]. eapply R_trans; [apply flush_remaining_input_R|].
+      eapply R_trans; [apply R_ctl | apply R_pieces].
     + eexists; split; [|reflexivity].
       eapply R_trans; [apply R_ext|]. eapply R_trans; [exact H|]. eapply R_trans; [apply flush_remaining_input_R|].
       eapply R_trans; [apply R_ctl | apply R_pieces].
-    + eapply R_trans; [apply R_ext|]. eapply R_trans; [exact H|]. eapply R_trans; [apply flush_remaining_input_R | apply R_ctl].
   - pose proof (bail_R s (c_disp c') e [if s_has_buf s then ar_data (s_arena s) else []]) as Hb.
     destruct (bail ctl s (c_disp c') e _) as [s' r] eqn:Eb. cbn in Hb.
     assert (Hr : r = CErr e) by (unfold bail in Eb; destruct (should_bail_out_for s e); inversion Eb; reflexivity).
